@@ -16,7 +16,12 @@
 #define MAXB 10
 #endif
 
+static void* no_malloc(size_t n) { VF_ASSERT(0, "low-level encoder / streaming decoder requested memory (malloc)"); return 0; }
+static void* no_realloc(void* p, size_t n) { VF_ASSERT(0, "low-level encoder / streaming decoder requested memory (realloc)"); return 0; }
+static void no_free(void* p) { VF_ASSERT(0, "low-level encoder / streaming decoder released memory (free)"); }
+
 void harness(void) {
+  cbor_set_allocs(no_malloc, no_realloc, no_free);
   size_t n = in_size();
   __CPROVER_assume(n <= MAXB);
   unsigned char* buf = vf_sym_block(n);
